@@ -171,33 +171,48 @@ def run(ctx):
             inside.update({n: None for n in rng.sample(["x.txt", "png", "pack.pn"], rng.randrange(0, 2))})
             beside = {n: None for n in rng.sample(["MyPack.png", "MyPack.jpg", "MyPack.bmp", "mypack.gif", "Other.png", "MyPack.txt"], rng.randrange(0, 4))}
             top = dict(beside); top["MyPack"] = inside
-            for fsname in ("native", "memory"):
-                if fsname == "native":
+            # the pack is addressed absolutely, with a trailing separator, by a bare relative name (the current directory /
+            # the filesystem root being its parent) and below a relative parent: "beside the pack" is the same directory each time
+            for fsname in ("native", "native-relative", "memory", "memory-top", "memory-relative", "memory-relative-parent"):
+                cwd = None
+                if fsname.startswith("native"):
                     root = os.path.join(tmp, "k%d" % i); fstools.make_native(top, root); fsys = NativeOSFS()
-                    pdir = os.path.join(root, "MyPack") + rng.choice(["", "/"]); join = os.path.join; parent = root
+                    join = os.path.join
+                    if fsname == "native":
+                        pdir = os.path.join(root, "MyPack") + rng.choice(["", "/"]); parent = root
+                    else:
+                        cwd = os.getcwd(); os.chdir(root); pdir = "MyPack" + rng.choice(["", "/"]); parent = ""
                 else:
-                    fsys = fstools.make_memory({"Songs": top}); pdir = "/Songs/MyPack"; join = fs.path.join; parent = "/Songs"
-                case = {"fs": fsname, "inside": fsys.listdir(pdir), "beside": sorted(beside)}
-                res.case({"banner": case}, nontrivial=len(inside) > 2)
+                    join = fs.path.join
+                    if fsname == "memory": fsys = fstools.make_memory({"Songs": top}); pdir = "/Songs/MyPack"; parent = "/Songs"
+                    elif fsname == "memory-top": fsys = fstools.make_memory(top); pdir = "/MyPack"; parent = "/"
+                    elif fsname == "memory-relative": fsys = fstools.make_memory(top); pdir = "MyPack"; parent = ""
+                    else: fsys = fstools.make_memory({"Songs": top}); pdir = "Songs/MyPack"; parent = "Songs"
                 try:
-                    b = SimfilePack(pdir, filesystem=fsys).banner()
-                except Exception as e:
-                    res.violation(case, "SimfilePack.banner raised", impl=core.exc_name(e)); continue
-                exts = [".png", ".jpg", ".jpeg", ".gif", ".bmp"]
-                exp = None
-                for e in exts:
-                    m = [n for n in case["inside"] if n.lower().endswith(e)]
-                    if m: exp = [join(pdir.rstrip("/"), x) for x in m]; break
-                if exp is None:
+                    case = {"fs": fsname, "pack_dir": pdir if not fsname == "native" else "<tmp>/MyPack" + pdir[len(os.path.join(root, "MyPack")):],
+                            "inside": fsys.listdir(pdir), "beside": sorted(beside)}
+                    res.case({"banner": case}, nontrivial=len(inside) > 2)
+                    try:
+                        b = SimfilePack(pdir, filesystem=fsys).banner()
+                    except Exception as e:
+                        res.violation(case, "SimfilePack.banner raised", impl=core.exc_name(e)); continue
+                    exts = [".png", ".jpg", ".jpeg", ".gif", ".bmp"]
+                    exp = None
                     for e in exts:
-                        if fsys.exists(join(parent, "MyPack" + e)): exp = [join(parent, "MyPack" + e)]; break
-                res.traces += 1
-                if (b is None) != (exp is None) or (b is not None and os.path.normpath(b) not in [os.path.normpath(x) for x in exp]):
-                    res.violation(case, "pack banner not chosen by extension priority inside the pack, else beside it", impl=b, expected=exp); continue
-                reqs.append({"op": "dir.banner", "listing": case["inside"], "pack_name": "MyPack",
-                             "beside": [n for n in beside if fsys.exists(join(parent, n))]})
-                metas.append(("banner", b, pdir, parent, join, None))
-                if fsname == "native": shutil.rmtree(root, ignore_errors=True)
+                        m = [n for n in case["inside"] if n.lower().endswith(e)]
+                        if m: exp = [join(pdir.rstrip("/"), x) for x in m]; break
+                    if exp is None:
+                        for e in exts:
+                            if fsys.exists(join(parent, "MyPack" + e)): exp = [join(parent, "MyPack" + e)]; break
+                    res.traces += 1; res.count("pack_addressed_" + fsname)
+                    if (b is None) != (exp is None) or (b is not None and os.path.normpath(b) not in [os.path.normpath(x) for x in exp]):
+                        res.violation(case, "pack banner not chosen by extension priority inside the pack, else beside it", impl=b, expected=exp); continue
+                    reqs.append({"op": "dir.banner", "listing": case["inside"], "pack_name": "MyPack",
+                                 "beside": [n for n in beside if fsys.exists(join(parent, n))]})
+                    metas.append(("banner", b, pdir, parent, join, None))
+                finally:
+                    if cwd is not None: os.chdir(cwd)
+                    if fsname.startswith("native"): shutil.rmtree(root, ignore_errors=True)
     finally:
         shutil.rmtree(tmp, ignore_errors=True)
     resp = ctx.lean.eval_sharded(reqs)
